@@ -57,7 +57,9 @@ def bit(value: int, byte: int, position: int) -> int:
     :param position: The position in the byte to set the bit on
 
     """
-    return byte | (value << position)
+    if not isinstance(value, int):
+        raise TypeError('bool required, received {}'.format(type(value)))
+    return byte | (bool(value) << position)
 
 
 def boolean(value: bool) -> bytes:
